@@ -46,16 +46,19 @@ CHECKS["C11"] = {
 }
 
 CHECKS["C06"] = {
-    "pkg": "matchh",
-    "quick": {"wall_s": 25, "race_wall_s": 12, "race_max_runs": 1000},
-    "thorough": {"wall_s": 300, "race_wall_s": 120, "race_max_runs": 1800},
+    "pkgs": ["matchh", "subscribeh"],
+    "quick": {"wall_s": 40, "race_wall_s": 16, "race_max_runs": 1000},
+    "thorough": {"wall_s": 420, "race_wall_s": 160, "race_max_runs": 1800},
     "rule": "Three scenario kinds: (conc) 1..3 clients adding/removing distinct queries and 1..3 updaters issuing Update / UpdateOnce "
             "(multi-path notifications sharing one updated set) concurrently under the seeded scheduler, checked with must/may windows on "
             "invoke/return stamps against the compatibility relation of the statement; (pairs) the finite space of query x update path "
             "pairs of length 0..4 over {a,b,*} walked in chunks of 200 (probe pairs-chunk-NNN per chunk; all chunks are hit in the quick "
             "tier), including silence after remove and the unaffected second client; (tree) every leaf ctree.Query(q) returns is offered to "
-            "a subscriber of q. Non-trivial: >= 2 tasks with at least one registration and one update, or any pairs/tree run.",
-    "real": ["match (instrumented)", "ctree (instrumented)"],
+            "a subscriber of q. Non-trivial: >= 2 tasks with at least one registration and one update, or any pairs/tree run. "
+            "Server level (second half of the budget, subscribe harness): Subscribe RPCs with 1..4 paths per subscription list (equal and "
+            "different lengths, shared prefixes) are run to completion and the matcher must hold no registration afterwards; nothing is "
+            "streamed to a subscriber none of whose paths agrees with it.",
+    "real": ["match (instrumented)", "ctree (instrumented)", "subscribe, cache, coalesce (instrumented) for the server-level clause"],
     "stub": [],
     "assumptions": ["a client never holds the same query twice at once (match keeps a set of clients per query)"],
 }
@@ -71,13 +74,30 @@ CACHE_RULE = ("Scenario: 1..4 targets, one stream task per target playing 4..60 
               "Non-trivial: >= 3 operations judged.")
 for _p in ("C02", "C03", "C14", "C15"):
     CHECKS[_p] = {
-        "pkg": "cacheh",
+        "pkgs": ["cacheh", "subscribeh"] if _p == "C14" else ["cacheh"],
         "quick": {"wall_s": 25, "race_wall_s": 15, "race_max_runs": 800},
         "thorough": {"wall_s": 360, "race_wall_s": 180, "race_max_runs": 1500},
         "rule": CACHE_RULE,
         "real": ["cache, ctree, metadata, latency, path, value, errlist (instrumented)", "protobuf runtime"],
         "stub": ["glog (discarded)"],
         "assumptions": ["one update stream per target (DESIGN.md 5 rule 3)", "the collector clock is cache.Now/latency.Now (existing seams)"],
+    }
+
+SUB_RULE = ("Scenario: real cache + real subscribe.Server (generated gNMI stub on a simulated stream: FIFO, marshal/unmarshal, flow-control "
+            "window 0/1/2/8/64); 1..3 targets preloaded sequentially, then one writer task per target (updates, deletes, re-adds, Reset, "
+            "Remove/Add, Sync/Connect) racing 1..4 subscribers (STREAM / ONCE / POLL, single target or *, globbed and origin-qualified "
+            "path sets, updates_only) that start after a drawn number of scheduling points; readers can be slow or stall transiently or "
+            "for good (flow-control fault); optional ACL table. Phases: chaos to quiescence, fair drain, judgement, cancellation of every "
+            "RPC. Non-trivial: at least one response delivered and one cache change.")
+for _p in ("C04", "C05", "C07", "C08"):
+    CHECKS[_p] = {
+        "pkg": "subscribeh",
+        "quick": {"wall_s": 30, "race_wall_s": 15, "race_max_runs": 600},
+        "thorough": {"wall_s": 420, "race_wall_s": 180, "race_max_runs": 1500},
+        "rule": SUB_RULE,
+        "real": ["subscribe, cache, match, coalesce, ctree, path, metadata (instrumented)", "generated gNMI server stub", "protobuf runtime"],
+        "stub": ["gRPC transport (simgrpc stream: FIFO, reliable, window-limited, marshalled)", "glog (discarded)"],
+        "assumptions": ["one update stream per target", "gRPC delivers a stream in order without loss (DESIGN.md 3.5)"],
     }
 
 UNDER_CONSTRUCTION = "check under construction, not claimed yet"
@@ -89,7 +109,40 @@ NOT_APPLICABLE["C19"] = ("pure functions of their input (path indexing, value co
 _CACHE_NOTE = ("Trusts the reference model in sim/model/cachemodel (written from the statements; index paths, value canonicalisation and "
                "wildcard matching in sim/gen are the harness's own code). Where the statement leaves a choice (same timestamp and value in "
                "a different encoding; a trailing glob one element past a leaf; suppression of an unchanged value) either outcome is accepted.")
+_SUB_NOTE = ("Trusts the harness's reading of paths (sim/gen), the cache reference model for 'what was certainly stored when', the simulated "
+             "stream's gRPC semantics (FIFO, reliable, window-limited) and interval reasoning on global event stamps. Leaves that are only "
+             "stream-compatible with a subscription (shorter than its path) are outside 'matching content' and not judged.")
 LEVELS = {
+    "C04": {
+        "text": "Seeded search over interleavings of per-target writers with STREAM subscriptions that start at arbitrary scheduling points; the "
+                "registration/walk, tree-write/feed and enqueue/dequeue windows are lock or channel boundaries and therefore scheduling points. "
+                "Per subscriber: sync discipline, leaves certainly present at subscription time delivered before the sync, per-leaf delivery "
+                "order, and at quiescence replay(responses) == matching cache content. Evidence, not proof.",
+        "design_ref": "7 C04", "note": _SUB_NOTE,
+        "technique": "deterministic simulation: seeded scheduler + response-replay equivalence at quiescence + interval oracles",
+    },
+    "C05": {
+        "text": "ONCE and POLL subscriptions against static caches (exact matching set, one sync per round, successful end) and against concurrent "
+                "writers (every returned value was held during the round, every leaf stored throughout is returned, nothing non-matching). "
+                "Evidence, not proof.",
+        "design_ref": "7 C05", "note": _SUB_NOTE,
+        "technique": "deterministic simulation: seeded scheduler + exact snapshot / may-must window oracles",
+    },
+    "C07": {
+        "text": "Generated user x target ACL tables and users whose authorisation cannot be established; every message handed to the stream's Send "
+                "is recorded at the simulated transport and none may carry a denied target; denied single-target calls end PermissionDenied and "
+                "unauthenticated calls Unauthenticated before any message; allowed targets keep the C04/C05 clauses. Evidence, not proof.",
+        "design_ref": "7 C07", "note": _SUB_NOTE,
+        "technique": "deterministic simulation with a recording transport (every Send observed) under seeded interleavings",
+    },
+    "C08": {
+        "text": "Flow-control fault: readers that are slow, stall transiently or stall for good with windows of 0..2 messages and send timeouts "
+                "of 1..90 virtual seconds. Writers must finish (and, with a frozen scheduler clock, in zero virtual time) whatever readers do; a "
+                "send blocked beyond the timeout must have ended the RPC with an error by the time the system is quiescent; deliveries plus "
+                "duplicate counts must equal the number of times a leaf was offered. Evidence, not proof.",
+        "design_ref": "7 C08", "note": _SUB_NOTE,
+        "technique": "deterministic simulation with stalled-peer fault injection on virtual time",
+    },
     "C02": {
         "text": "Seeded exploration of notification histories with out-of-order, equal and duplicate timestamps, all future-threshold settings and a "
                 "collector clock that is frozen, advancing or jumping both ways; after every operation the result class and the stored content "
@@ -126,7 +179,7 @@ LEVELS = {
                 "written from the statement, plus complete coverage of the finite query x path space to length 4 and the Query-implies-"
                 "streamed relation on generated trees. Evidence, not proof (the finite table is covered completely, which the evidence reports).",
         "design_ref": "7 C06",
-        "note": "The compatibility relation in matchh.compat is the trusted reading of the statement. The server-level clause (registrations removed when a Subscribe RPC ends) is checked by the subscribe harness.",
+        "note": "The compatibility relation in matchh.compat is the trusted reading of the statement. The server-level clause (registrations removed when a Subscribe RPC ends) reads the matcher's trie through reflection; if its layout changes the clause is skipped and reported as probe registration-accessor-unavailable.",
         "technique": "deterministic simulation: seeded scheduler + interval oracles + systematic pair table",
     },
     "C11": {
